@@ -495,6 +495,14 @@ def itertools_join(ctx, args, st):
     def g():
         for s2, items in drain(ctx.ex, st, src.data, ctx.depth):
             if isinstance(items, tuple): yield s2, 'panic', items[1]; continue
+            vals = [s2.deref_all(x) if isinstance(x, Ref) else x for x in items]
+            if all(isinstance(v, StrV) and v.facts is None for v in vals) and isinstance(sep, StrV) and sep.facts is None:
+                # plain strings (possibly with symbolic characters): the exact concatenation
+                out = []
+                for i, v in enumerate(vals):
+                    if i: out += list(sep.chars)
+                    out += list(v.chars)
+                yield s2, 'ret', StrV(out, 'String'); continue
             parts = []
             for x in items:
                 v = s2.deref_all(x) if isinstance(x, Ref) else x
